@@ -75,6 +75,17 @@ Theorem C08_fallback_collected_offset : forall W h1 tc h2 t pid pre p post,
   snd (step W t (ORestore pid (p_id p)) (final W (h1 ++ (tc, OClean) :: h2))) = Some None.
 Proof. exact fallback_collected_offset. Qed.
 
+(** ... and ONLY for one of these four reasons (times non-decreasing): a fallback without a reason -
+    a client inside the window, with a live offset, refused - does not happen. *)
+Theorem C08_fallback_only_with_reason : forall W h t t0 pid off,
+  times_sorted t0 (h ++ [(t, ORestore pid off)]) = true ->
+  snd (step W t (ORestore pid off) (final W h)) = Some None ->
+  last_persist pid h None = None
+  \/ (exists s td, last_persist pid h None = Some (s, td) /\ td + W < t)
+  \/ ~ In off (map p_id (emitted h))
+  \/ (exists p tc, In p (emitted h) /\ p_id p = off /\ In (tc, OClean) h /\ p_at p + W < tc).
+Proof. exact fallback_reason. Qed.
+
 (** Socket layer (namespace.add / newServerSocket / onConnect): a socket is marked recovered only
     if it carries the persisted socket id, re-joins the persisted rooms and is sent exactly the
     missed packets (followed by the CONNECT packet with the same sid and pid) ... *)
@@ -151,3 +162,15 @@ Example C08_legacy_code_gap :
   option_map (fun r => option_map (fun x => map p_id (snd x)) r)
              (snd (step_legacy 10 0 (ORestore 3%N 1%N) (fst (run_legacy 10 h st_empty)))) = Some (Some []).
 Proof. vm_compute. reflexivity. Qed.
+
+(** Selection uses the rooms the socket had when it disconnected. If they differ from the rooms
+    it had when a packet was emitted (it joined room 1 only afterwards), a packet that was not
+    addressed to it at emission time is replayed (same in the reference implementation). *)
+Example C08_addressed_needs_stable_rooms :
+  let q := mkOpts [1%N] [] in
+  should_include [] q = false /\ should_include [1%N] q = true /\
+  let h := [(0, OBroadcast KEvent 1%N (mkOpts [] [])); (0, OBroadcast KEvent 2%N q);
+            (1, OPersist (mkSess 5%N 3%N [1%N]))] in
+  option_map (fun r => option_map (fun x => map p_id (snd x)) r)
+             (snd (step 10 2 (ORestore 3%N 1%N) (final 10 h))) = Some (Some [2%N]).
+Proof. vm_compute. auto. Qed.
